@@ -432,6 +432,9 @@ class wall_alarm:
             self.old = signal.signal(signal.SIGALRM, _alarm)
             signal.setitimer(signal.ITIMER_REAL, self.seconds)
             self.on = True
+            from . import fakes
+            self.fakes = fakes
+            fakes.inline_pools = True
         return self
 
     def __exit__(self, *a):
@@ -439,4 +442,5 @@ class wall_alarm:
             import signal
             signal.setitimer(signal.ITIMER_REAL, 0)
             signal.signal(signal.SIGALRM, self.old)
+            self.fakes.inline_pools = False
         return False
